@@ -181,6 +181,43 @@ def run_snips(binary, items, batch=100):
     return out
 
 
+def run_real(binary, items, batch=40):
+    """like run_snips, but through the harness command `numreal`: the Vm keeps yarel's own `print` native, whose lines
+    arrive raw on stdout between the escaped framing lines"""
+    lines = []
+    for i in range(0, len(items), batch):
+        lines.append("numreal " + " ".join("%s:%s" % ("-" if b is None else str(b), hx(s)) for b, s in items[i:i + batch]))
+    recs = yvlib.run_harness(binary, lines, case_timeout_ms=60000)
+    out = []
+    for i, rec in zip(range(0, len(items), batch), recs):
+        n = len(items[i:i + batch])
+        sn, cur = [], None
+        for l in rec.lines:
+            if l.startswith("@@SNIP "):
+                cur = {"D": None, "O": [], "R": None, "M": [], "G": None}
+                sn.append(cur)
+            elif cur is None or cur["G"] is not None:
+                continue
+            elif l.startswith("@@D "):
+                cur["D"] = yvlib.unhx(l[4:]).decode("utf-8", "replace")
+            elif l.startswith("@@R "):
+                f = l.split(" ")
+                cur["R"] = "ok" if f[1] == "ok" else "err:" + f[2]
+            elif l.startswith("@@M "):
+                cur["M"].append(yvlib.unhx(l[4:]).decode("utf-8", "replace"))
+            elif l.startswith("@@G "):
+                cur["G"] = l[4:]
+            else:
+                cur["O"].append(l)
+        if rec.crashed or len(sn) != n or any(x["G"] is None for x in sn):
+            if n > 1:
+                sn = run_real(binary, items[i:i + batch], batch=1)
+            else:
+                sn = [{"D": None, "O": [], "R": "crash:%s" % (rec.result,), "M": [], "G": None}]
+        out.extend(sn)
+    return out
+
+
 def both(f, g):
     """implementation side and model side at the same time"""
     with ThreadPoolExecutor(max_workers=2) as ex:
@@ -634,10 +671,64 @@ def gen_literals(rng, n):
     return res[:max(n, len(fixed))]
 
 
-def check_routes(ctx, lits, rbits, tag):
-    """lits: [(unsigned literal text, negative?)]; rbits: bit patterns fed through the variable only"""
+def next_up(x):
+    return struct.unpack("<d", struct.pack("<Q", f2b(x) + 1))[0]
+
+
+def int_ladder(rng, nrand):
+    """integral values around the integer-type boundaries: literal texts (unsigned text, negative?) and computed expressions
+    (expression text, bits of its value; every operation is exact or correctly rounded in Python floats as in IEEE)"""
+    ints = []
+    for k in (31, 32, 52, 53, 54, 62, 63, 64, 65, 127, 128):
+        p = 2 ** k
+        ints += [p - 1, p, int(next_up(float(p))), p + 1]
+    for k in range(15, 23):
+        p = 10 ** k
+        ints += [p - 1, p, p + 1, int(next_up(float(p)))]
+    ints += [2 ** 64 - 1, 2 ** 63 - 1, 2 ** 63, 3 * 2 ** 62, 2 ** 64 - 2048, 2 ** 63 + 1024, 2 ** 63 + 2048, 10 ** 19, 12345678901234567890,
+             2 ** 32 - 1, 2 ** 31 - 1, 2 ** 53 + 1, 2 ** 53 + 2]
+    for _ in range(nrand):          # integral doubles in [2^63, 2^64), [2^53, 2^63), [2^64, 2^70)
+        ex = rng.choice([63, 63, 63, rng.randint(53, 62), rng.randint(64, 70)])
+        ints.append((2 ** 52 + rng.getrandbits(52)) << (ex - 52))
+    lits = []
+    for v in dict.fromkeys(ints):
+        lits.append((str(v), False))
+        lits.append((str(v), True))
+        if rng.random() < 0.3:
+            lits.append((str(v) + ".0", rng.random() < 0.5))
+    exprs = []
+    cand = [("9223372036854775808 * 1.5", 9223372036854775808.0 * 1.5), ("18446744073709551616 - 2048", 18446744073709551616.0 - 2048.0),
+            ("-9223372036854775808 * 1.5", -9223372036854775808.0 * 1.5), ("4294967296 * 4294967296 - 4096", 4294967296.0 * 4294967296.0 - 4096.0),
+            ("9223372036854775807 + 1025", 9223372036854775807.0 + 1025.0), ("10000000000 * 1000000000", 1e10 * 1e9),
+            ("0 - 18446744073709549568", 0.0 - 18446744073709549568.0), ("4611686018427387904 * 3", 4611686018427387904.0 * 3.0),
+            ("2147483647 + 1", 2147483648.0), ("9007199254740992 * 1024 + 1024", 9007199254740992.0 * 1024.0 + 1024.0),
+            ("1 / 3", 1.0 / 3.0), ("0.1 + 0.2", 0.1 + 0.2), ("7 / 2", 3.5), ("0 * -1", 0.0 * -1.0)]
+    for _ in range(max(4, nrand // 3)):
+        a = (2 ** 52 + rng.getrandbits(52)) << rng.randint(0, 11)
+        b = rng.choice([2, 4, 1.5, 3, 1024])
+        op = rng.choice(["*", "+", "-"])
+        bb = b if op == "*" else rng.choice([2048, 4096, 2 ** 40, 2 ** 62])
+        val = {"*": float(a) * float(bb), "+": float(a) + float(bb), "-": float(a) - float(bb)}[op]
+        cand.append(("%d %s %s" % (a, op, bb), val))
+    for t, v in cand:
+        exprs.append((t, f2b(v)))
+    return lits, exprs
+
+
+def check_routes(ctx, lits, rbits, tag, exprs=()):
+    """lits: [(unsigned literal text, negative?)]; rbits: bit patterns fed through the variable only;
+    exprs: [(expression text, bits of its value)] computed values.  Runs under yarel's OWN print native."""
     binary = ctx.harness("debug")
     items, meta = [], []
+    for t, b in exprs:
+        nan = is_nan_bits(b)
+        fin = not nan and (b & ~SIGN & MASK) < INF
+        kind = (set() if nan else {"number"}) | ({"finite"} if fin else set()) | \
+            ({"fraction"} if fin and mag_value(b & ~SIGN & MASK).denominator != 1 else set())
+        s1, e1 = routes_program("(" + t + ")", kind)
+        s2, e2 = routes_program("x", kind)
+        items.append((b, "\n".join(s1 + s2)))
+        meta.append({"lit": None, "expr": t, "bits": b, "exp": e1 + e2, "src": s1 + s2})
     for t, neg in lits:
         try:
             v = float(t)
@@ -660,7 +751,7 @@ def check_routes(ctx, lits, rbits, tag):
         items.append((b, "\n".join(s2)))
         meta.append({"lit": None, "bits": b, "exp": e2, "src": s2})
     utexts = list(dict.fromkeys(t for t, _ in lits))
-    sn, canon = both(lambda: run_snips(binary, items, batch=40),
+    sn, canon = both(lambda: run_real(binary, items, batch=40),
                      lambda: coq_lists("run_canon_w", [wire_text(t) for t in utexts], 10, "C19canon" + tag))
     cmap = dict(zip(utexts, canon))
     nontriv = set()
@@ -679,7 +770,9 @@ def check_routes(ctx, lits, rbits, tag):
                         {"statement": src, "expected": want, "actual": got}
                     break
         if what:
-            ctx.violation(what, kind="routes", lits=[hx(mt["lit"])] if mt["lit"] else [], rbits=[] if mt["lit"] else [mt["bits"]],
+            ctx.violation(what, kind="routes", lits=[hx(mt["lit"])] if mt["lit"] else [],
+                          rbits=[] if (mt["lit"] or mt.get("expr")) else [mt["bits"]],
+                          exprs=[[hx(mt["expr"]), mt["bits"]]] if mt.get("expr") else [],
                           input="x = f64::from_bits(%d); %s" % (mt["bits"], (bad.get("statement") if isinstance(bad, dict) else "\n".join(mt["src"]))[:600]),
                           expected=(bad.get("expected") if isinstance(bad, dict) else "ok")[:300] if isinstance(bad, dict) else "ok",
                           actual=(bad.get("actual")[:300] if isinstance(bad, dict) else str(bad)))
@@ -786,7 +879,11 @@ def run_sized(ctx, size):
     bb = boundary_bits()
     rbits = list(dict.fromkeys([0, SIGN, 1, INF, INF | SIGN, QNAN, QNAN | SIGN | 1, INF - 1, f2b(0.1), f2b(2.0 ** 53), f2b(-1.5)] +
                                rng.sample(bb, min(n_rb // 2, len(bb))) + random_bits(rng, n_rb // 2)))
-    n_d, nt_d = check_routes(ctx, lits, rbits, size)
+    lad_lits, lad_exprs = int_ladder(rng, {"quick": 40, "search": 120, "thorough": 600}[size])
+    lits = lits + lad_lits
+    rbits = list(dict.fromkeys(rbits + [f2b(float(2 ** 63)), f2b(float(2 ** 64)), f2b(-float(2 ** 63)), f2b(1.5 * 2 ** 63), f2b(1e19), f2b(-1e19)] +
+                               [(1086 << 52) | rng.getrandbits(52) | (rng.getrandbits(1) << 63) for _ in range(n_rb // 4)]))
+    n_d, nt_d = check_routes(ctx, lits, rbits, size, exprs=lad_exprs)
     t5 = time.time()
     log("[C19] %s: print %.1fs, midpoints %.1fs, parse %.1fs, lex %.1fs, routes %.1fs" % (size, t1 - t0, t2 - t1, t3 - t2, t4 - t3, t5 - t4))
     ctx.cov["phase_seconds"] = {"print": round(t1 - t0, 1), "midpoints": round(t2 - t1, 1), "parse": round(t3 - t2, 1),
@@ -826,7 +923,10 @@ def run_sized(ctx, size):
             "parse_texts": {"short_decimals(<=4 digits around the point)": len(sd), "of_all": 43210, "long(5..40 digits)": len(longs),
                             "midpoint_family(tie, +-1 unit in the next place)": len(mids), "malformed_and_special": len(MALFORMED)},
             "lex_programs": len(cases),
-            "route_literals": len(lits), "route_variable_only_patterns": len(rbits), "route_statements": [r[0] for r in ROUTES],
+            "route_literals": len(lits), "route_variable_only_patterns": len(rbits), "route_computed_expressions": len(lad_exprs),
+            "route_integer_ladder": "+-(2^k-1, 2^k, next double, 2^k+1) for k in 31,32,52,53,54,62,63,64,65,127,128; 10^15..10^22 and neighbours; "
+                                    "u64::MAX, i64::MIN/MAX, 1.5*2^63, random integral doubles in [2^63,2^64) and nearby binades",
+            "route_printer": "yarel's own print native (harness command numreal), not the harness printer", "route_statements": [r[0] for r in ROUTES],
         },
         "samples": [{"bits": b, "text": t[:60]} for b, t in printed[-3:]] + ex(nt_b, 3) + [c["prog"] for c in cases[-3:]] + [x[:60] for x in ex(nt_d, 3)],
         "print_cases": n_a, "parse_cases": n_b, "lex_cases": n_c, "route_lines": n_d, "reference_search_cases": n_ref,
@@ -843,9 +943,10 @@ def run(ctx):
             check_parse(ctx, [yvlib.unhx(t).decode() for t in rp["texts"]], "replay")
         if rp.get("progs"):
             check_lex(ctx, rp["progs"], "replay")
-        if rp.get("lits") or rp.get("rbits"):
+        if rp.get("lits") or rp.get("rbits") or rp.get("exprs"):
             ls = [yvlib.unhx(t).decode() for t in rp.get("lits", [])]
-            check_routes(ctx, [(t.lstrip("-"), t.startswith("-")) for t in ls], [int(b) for b in rp.get("rbits", [])], "replay")
+            check_routes(ctx, [(t.lstrip("-"), t.startswith("-")) for t in ls], [int(b) for b in rp.get("rbits", [])], "replay",
+                         exprs=[(yvlib.unhx(t).decode(), int(b)) for t, b in rp.get("exprs", [])])
         ctx.cov.update({"evaluations": 1, "distinct_nontrivial": 0, "rule": "replay of one recorded input", "samples": [rp.get("input")]})
         return
     run_sized(ctx, "quick" if ctx.quick() else "thorough")
